@@ -96,7 +96,10 @@ def write_cfg(path, *, spec=None, init=None, next_=None, constants=None, invaria
     if constants:
         lines.append('CONSTANTS')
         for k, v in constants.items():
-            lines.append('  %s = %s' % (k, tla_value(v)))
+            if isinstance(v, Subst):
+                lines.append('  %s <- %s' % (k, v))
+            else:
+                lines.append('  %s = %s' % (k, tla_value(v)))
     for i in invariants:
         lines.append('INVARIANT %s' % i)
     for p in properties:
@@ -119,6 +122,10 @@ def write_cfg(path, *, spec=None, init=None, next_=None, constants=None, invaria
 
 class Raw(str):
     """a cfg value written verbatim"""
+
+
+class Subst(str):
+    """CONSTANT name <- definition of the module"""
 
 
 def tla_value(v):
